@@ -268,7 +268,7 @@ def run(ck):
     binp = ck.go_build("c05")
     if not binp:
         return
-    n = "120" if ck.tier == "quick" else "3000"
+    n = "120" if ck.tier == "quick" else "1200"
     recs = ck.run_harness(binp, ["-n", n])
     if recs is None:
         return
@@ -300,7 +300,7 @@ def run(ck):
 
 def replay(ck, path):
     if path.endswith(".jsonl"):
-        inp = path
+        inp = os.path.abspath(path)
     else:
         doc = json.load(open(path))
         case = doc.get("input")
